@@ -38,6 +38,12 @@ def base_schemas():
     for i, s in enumerate(c12.schemas('quick')):
         if i % 907 == 0:
             out.append(s)
+    # rules with two and three alternative signers
+    out.append([{'id': '#k1', 'name': [['lit', 'a'], ['pat', 'x']], 'cons': [], 'sign': []},
+                {'id': '#k2', 'name': [['lit', 'b'], ['pat', 'x']], 'cons': [], 'sign': ['#k1']},
+                {'id': '#k3', 'name': [['lit', 'c']], 'cons': [], 'sign': []},
+                {'id': '#d', 'name': [['lit', 'd'], ['pat', 'x']], 'cons': [], 'sign': ['#k1', '#k2']},
+                {'id': '#e', 'name': [['lit', 'e'], ['pat', 'x'], ['pat', 'y']], 'cons': [], 'sign': ['#k3', '#k2', '#k1']}])
     out.append([{'id': '#site', 'name': [['lit', 'a'], ['lit', 'b']], 'cons': [], 'sign': []},
                 {'id': '#root', 'name': [['ref', '#site'], ['ref', '#KEY']], 'cons': [], 'sign': []},
                 {'id': '#art', 'name': [['ref', '#site'], ['lit', 'c'], ['pat', 'x']], 'cons': [], 'sign': ['#auth']},
@@ -183,6 +189,17 @@ def run_positive(schema):
     except Exception as e:  # noqa
         return [(f'C13|positive|second-compilation|{type(e).__name__}@{tb_where(e)}',
                  f'after the caller modified the first compiled model, compiling the same error-free text again fails: {e!r}; schema:\n{text}')]
+    # rules may be written in any order: when every rule id is defined once, every order of the definitions is the same schema
+    ids = [r['id'] for r in schema]
+    if len(set(ids)) == len(ids) and len(ids) > 1:
+        orders = list(itertools.permutations(schema)) if len(ids) <= 3 else [list(reversed(schema)), schema[1:] + schema[:1]]
+        for perm in orders[1:] if len(ids) <= 3 else orders:
+            t2 = lvs_ref.render(list(perm))
+            try:
+                Checker.load(Checker(compile_lvs(t2), FNS).save(), FNS)
+            except Exception as e:  # noqa
+                return [(f'C13|positive|reordered|{type(e).__name__}@{tb_where(e)}',
+                         f'error-free schema rejected when its rule definitions are written in another order: {e!r}; schema:\n{t2}')]
     return []
 
 
@@ -358,7 +375,10 @@ def run_binary(model_bytes, label, edited):
     except SemanticError:
         loaded = False          # cyclic signing relations are reported through the compiler's error class
         if broken - {'no-claim:start-id'}:
-            pass
+            # ... but a broken documented sanity rule has its own documented error
+            viol.append((f"C13|binary|load-raises:SemanticError|{'+'.join(sorted(broken - {'no-claim:start-id'}))}|{field}",
+                         f'Checker.load raised the schema error instead of LvsModelError after edit {label} '
+                         f'(rules broken: {sorted(broken)})'))
     except StepLimit:
         viol.append((f'C13|binary|load-does-not-terminate|{field}', f'Checker.load exceeded the step bound after edit {label}'))
         return viol, 'load-steps'
